@@ -424,6 +424,31 @@ def run(shard, ctx):
                     ctx.fail("C06:%s.build_raises.%s" % (f.name, type(e).__name__), "%s with neutral optional keys raised %s" % (f.name, e), wit, exc=e)
         if built is not None and f.name == "inquiry.vpd83" and d.get("designator_descriptors"):
             resized_designator(ctx, f, v, b, rng, wit)
+        if built is not None and rng.random() < 0.5:
+            # the same values in dictionaries whose keys come in another order (reversed, sorted, shuffled - at every level): the
+            # same bytes
+            def reordered(x, how):
+                if isinstance(x, dict):
+                    ks = list(x)
+                    if how == "reversed":
+                        ks.reverse()
+                    elif how == "sorted":
+                        ks.sort(key=str)
+                    else:
+                        rng.shuffle(ks)
+                    return {k: reordered(x[k], how) for k in ks}
+                if isinstance(x, list):
+                    return [reordered(e, how) for e in x]
+                return copy.deepcopy(x)
+
+            how = rng.choice(["reversed", "sorted", "shuffled", "reversed"])
+            try:
+                got_ro = bytes(f.lib_build(reordered(d, how)))
+                ctx.count("builds_from_reordered_dictionaries")
+                if got_ro != bytes(built):
+                    ctx.fail("C06:%s.build_depends_on_key_order" % f.name, "%s: the same values with the keys %s build %s..., in the parser's order %s..." % (f.name, how, got_ro[:40].hex(), bytes(built)[:40].hex()), dict(wit, key_order=how))
+            except Exception as e:  # noqa: BLE001
+                ctx.fail("C06:%s.build_raises.%s" % (f.name, type(e).__name__), "%s with the keys %s raised %s" % (f.name, how, e), wit, exc=e)
         if built is not None:
             lists_as_other_iterables(ctx, f, d, built, rng, wit)
             # the same dictionary held in a mapping that makes up values for missing keys (a defaultdict, a Counter-like record): keys
